@@ -93,7 +93,7 @@ void runResidue(const Opts& o, long idx, CaseLog& log) {
     c.point("M1"); c.point("M2"); c.analog("EMG");
     for (int f = 0; f < 3; ++f) {
         ezc3d::DataNS::Frame fr; ezc3d::DataNS::Points3dNS::Points pts;
-        for (int i = 0; i < 2; ++i) { ezc3d::DataNS::Points3dNS::Point p; p.name(i ? "M2" : "M1"); p.x(1.f + f); p.y(2.f * i); p.z(-3.5f); p.residual(0.25f); pts.point(p); }
+        for (int i = 0; i < 2; ++i) { ezc3d::DataNS::Points3dNS::Point p; p.name(i ? "M2" : "M1"); p.x(1.1f + f); p.y(2.f * i); p.z(-3.5f); p.residual(0.25f); pts.point(p); }
         ezc3d::DataNS::AnalogsNS::Analogs an;
         for (int s = 0; s < 2; ++s) { ezc3d::DataNS::AnalogsNS::SubFrame sf; ezc3d::DataNS::AnalogsNS::Channel ch; ch.name("EMG"); ch.data(0.5f * s + f); sf.channel(ch); an.subframe(sf); }
         fr.add(pts, an); c.frame(fr);
@@ -109,6 +109,12 @@ void runResidue(const Opts& o, long idx, CaseLog& log) {
     Outcome so; log.pre("write"); VF_TRY(so, c.write(fp)); log.ev("save", "filler=" + std::to_string(idx), so);
     if (so.threw) { log.line("RES %ld save_threw %s", idx, so.cls.c_str()); return; }
     Snap s = take(c);
+    if (variant == 2) {   // C01 on every padding residue: what was saved must load back with the same content
+        std::unique_ptr<ezc3d::c3d> l; Outcome lo; log.pre("load"); VF_TRY(lo, l.reset(new ezc3d::c3d(fp))); log.ev("load", "", lo);
+        if (lo.threw) log.viol("C01", "reload_threw/" + lo.cls, "filler=" + std::to_string(idx) + ": " + lo.what);
+        else { std::vector<std::string> d = contentDiff(s, take(*l), ContentOpts(), 6); if (!d.empty()) { std::string all; for (size_t i = 0; i < d.size(); ++i) all += d[i] + "; "; log.viol("C01", "content/residue_sweep", "filler=" + std::to_string(idx) + ": " + all); } }
+        log.line("RES %ld ok", idx); unlink(fp); return;
+    }
     if (variant == 1) {
         std::unique_ptr<ezc3d::c3d> l; Outcome lo; log.pre("load"); VF_TRY(lo, l.reset(new ezc3d::c3d(fp))); log.ev("load", "", lo);
         if (lo.threw) { log.line("RES %ld reload_threw %s", idx, lo.cls.c_str()); return; }
@@ -134,10 +140,19 @@ void runC12Api(const Opts& o, long idx, CaseLog& log) {
         for (size_t i = 0; i < fb.size(); ++i) fv.push_back(bitsf(fb[i]));
         std::vector<size_t> d; d.push_back(64); d.push_back(32);
         Param p("FLOATS"); p.set(fv, d); c.parameter("C12", p);
+        { Param a("RATE"); a.set(std::vector<float>(1, 100.f)); c.parameter("ANALOG", a); }
         for (int i = 0; i < 128; ++i) c.point("Q" + std::to_string(i));
+        for (int i = 0; i < 128; ++i) c.analog("K" + std::to_string(i));
         for (int f = 0; f < 4; ++f) { ezc3d::DataNS::Frame fr; ezc3d::DataNS::Points3dNS::Points pts;
             for (int i = 0; i < 128; ++i) { ezc3d::DataNS::Points3dNS::Point pt; pt.name("Q" + std::to_string(i)); size_t b = (size_t)f * 512 + (size_t)i * 4; pt.x(fv[b]); pt.y(fv[b + 1]); pt.z(fv[b + 2]); pt.residual(fv[b + 3]); pts.point(pt); }
-            fr.add(pts); c.frame(fr); }
+            ezc3d::DataNS::AnalogsNS::Analogs an; ezc3d::DataNS::AnalogsNS::SubFrame sf;
+            for (int i = 0; i < 128; ++i) { ezc3d::DataNS::AnalogsNS::Channel ch; ch.name("K" + std::to_string(i)); ch.data(fv[(size_t)f * 512 + (size_t)i * 4]); sf.channel(ch); }   // every 4th pattern of this frame's 512
+            an.subframe(sf); fr.add(pts, an); c.frame(fr); }
+        // a second pass so that every pattern is also an analog sample: 12 more frames carry the remaining 3 of every 4 patterns
+        for (int f = 0; f < 12; ++f) { ezc3d::DataNS::Frame fr; ezc3d::DataNS::Points3dNS::Points pts; for (int i = 0; i < 128; ++i) { ezc3d::DataNS::Points3dNS::Point pt; pt.name("Q" + std::to_string(i)); pts.point(pt); }
+            ezc3d::DataNS::AnalogsNS::Analogs an; ezc3d::DataNS::AnalogsNS::SubFrame sf;
+            for (int i = 0; i < 128; ++i) { ezc3d::DataNS::AnalogsNS::Channel ch; ch.name("K" + std::to_string(i)); ch.data(fv[(size_t)(f / 3) * 512 + (size_t)i * 4 + 1 + (size_t)(f % 3)]); sf.channel(ch); }
+            an.subframe(sf); fr.add(pts, an); c.frame(fr); }
     }
     char fp[700]; snprintf(fp, sizeof fp, "%s/api_%ld.c3d", o.out.c_str(), idx);
     Outcome so; log.pre("write"); VF_TRY(so, c.write(fp)); log.ev("save", "", so);
@@ -150,7 +165,10 @@ void runC12Api(const Opts& o, long idx, CaseLog& log) {
     else { const std::vector<float>& got = l->parameters().group("C12").parameter("FLOATS").valuesAsFloat(); checked = (long)got.size();
         if (got.size() != fv.size()) bad = -1; else for (size_t i = 0; i < fv.size(); ++i) if (fbits(got[i]) != fb[i]) { if (!bad) { char t[64]; snprintf(t, sizeof t, "%08x -> %08x", fb[i], fbits(got[i])); log.viol("C12", "api/float_param_pattern", t); } ++bad; }
         for (int f = 0; f < 4; ++f) for (int i = 0; i < 128; ++i) { const ezc3d::DataNS::Points3dNS::Point& pt = l->data().frame((size_t)f).points().point((size_t)i); size_t b = (size_t)f * 512 + (size_t)i * 4; uint32_t g[4] = {fbits(pt.x()), fbits(pt.y()), fbits(pt.z()), fbits(pt.residual())};
+            { uint32_t av = fbits(l->data().frame((size_t)f).analogs().subframe(0).channel((size_t)i).data()); ++checked; if (av != fb[b]) { if (!bad) { char t[64]; snprintf(t, sizeof t, "%08x -> %08x", fb[b], av); log.viol("C12", "api/analog_float_pattern", t); } ++bad; } }
             for (int k = 0; k < 4; ++k) { ++checked; if (g[k] != fb[b + k]) { if (!bad) { char t[64]; snprintf(t, sizeof t, "%08x -> %08x (component %d)", fb[b + k], g[k], k); log.viol("C12", "api/point_float_pattern", t); } ++bad; } } } }
+    if (idx >= 4 && bad >= 0) for (int f = 0; f < 12; ++f) for (int i = 0; i < 128; ++i) { uint32_t want = fb[(size_t)(f / 3) * 512 + (size_t)i * 4 + 1 + (size_t)(f % 3)], av = fbits(l->data().frame((size_t)(4 + f)).analogs().subframe(0).channel((size_t)i).data()); ++checked;
+        if (av != want) { if (!bad) { char t[64]; snprintf(t, sizeof t, "%08x -> %08x", want, av); log.viol("C12", "api/analog_float_pattern", t); } ++bad; } }
     if (bad == -1) log.viol("C12", "api/value_count", "number of values changed");
     log.line("RES %ld ok checked=%ld bad=%ld", idx, checked, bad);
 }
@@ -188,6 +206,23 @@ void runDamage(const Opts& o, long idx, CaseLog& log) {
         log.line("RES %ld ok reads=%lu afterFail=%lu alloc=%lu frames=%zu params=%zu", idx, g_hook.reads, g_hook.readsAfterFail, g_hook.allocBytes, nf, np + walked * 0);
         log.pre("destroy"); c.reset();
     }
+}
+
+
+// C14: several objects saved one after the other in ONE process; every file must equal the file the same object gives when saved alone in a
+// fresh process (compared by the check).  Exposes state that survives between saves (static scratch buffers, caches).
+void runSaveSeq(const Opts& o, long idx, CaseLog& log) {
+    std::vector<std::string> files = readLines(o.list);
+    long win = o.geti("window", 6), a = idx * win, b = std::min((long)files.size(), a + win);
+    for (int pass = 0; pass < 2; ++pass)
+        for (long i = a; i < b; ++i) {
+            long j = pass == 0 ? i : (a + b - 1 - i);                 // second pass in reverse order: a different predecessor for every object
+            std::unique_ptr<ezc3d::c3d> c; Outcome oc; log.pre("load"); VF_TRY(oc, c.reset(new ezc3d::c3d(files[(size_t)j])));
+            if (oc.threw) continue;
+            char fp[700]; snprintf(fp, sizeof fp, "%s/seq%d_%ld.c3d", o.out.c_str(), pass, j);
+            Outcome so; log.pre("write"); VF_TRY(so, c->write(fp)); log.ev("save_in_sequence", "file=" + std::to_string(j) + " pass=" + std::to_string(pass), so);
+        }
+    log.line("RES %ld ok window=%ld..%ld", idx, a, b);
 }
 
 }  // namespace vf
